@@ -518,7 +518,7 @@ def run_shard(spec, acc):
     if spec["mode"] == "corpus":
         return run_corpus(spec, acc)
     tier, k, n = spec["tier"], spec["shard"], spec["nshards"]
-    total = 2400 if tier == "quick" else 60000
+    total = 4800 if tier == "quick" else 60000
     rng = random.Random("C09/%s/%s" % (spec["seed"], k))
     for j in range(total // n):
         w = check_case(rng.randrange(1 << 48), acc)
